@@ -166,8 +166,11 @@ pub fn gen(ctx: &mut Ctx) {
                 let with_allow = kind == Kind::Map || ctx.rng.below(3) != 0;
                 if with_allow { a.allow_refs = vec![ctx.rng.below(8) as usize]; if ctx.rng.below(4) == 0 { a.allow_refs.push(ctx.rng.below(8) as usize); } }
                 // per-credential keys: @k = base64url of the k-th registered id, resolved by the runner
-                let by_cred = match ctx.rng.below(8) {
+                let by_cred = match ctx.rng.below(10) {
                     0 | 1 => None,
+                    // the key of a listed credential with white space around it: not base64url, a syntax error
+                    8 => Some(vec![(format!(" @{}", a.allow_refs.first().copied().unwrap_or(0)), client_vals(ctx, prehashed))]),
+                    9 => Some(vec![(format!("@{}{}", a.allow_refs.first().copied().unwrap_or(0), *ctx.rng.pick(&["\n", " ", "\t", "="])), client_vals(ctx, prehashed))]),
                     2 => Some(vec![(format!("@{}", a.allow_refs.first().copied().unwrap_or(0)), client_vals(ctx, prehashed))]),
                     3 => Some(vec![(format!("@{}", ctx.rng.below(8)), client_vals(ctx, prehashed)), (format!("@{}", a.allow_refs.first().copied().unwrap_or(0)), client_vals(ctx, prehashed))]),
                     4 => Some(vec![("".to_string(), client_vals(ctx, prehashed))]),                       // empty key
@@ -178,6 +181,8 @@ pub fn gen(ctx: &mut Ctx) {
                 let eval = if ctx.rng.below(4) == 0 { None } else { Some(client_vals(ctx, prehashed)) };
                 let inp = if ctx.rng.below(6) == 0 { None } else { Some(CPrfI { eval, by_cred }) };
                 let both = ctx.rng.below(8) == 0;
+                // `prf` present without any input still takes precedence over `prfAlreadyHashed`
+                let inp = if both && ctx.rng.below(3) == 0 { ctx.stat("c09.client.empty_prf_beside_prehashed"); Some(CPrfI { eval: None, by_cred: if ctx.rng.bool() { None } else { Some(vec![]) } }) } else { inp };
                 a.ext = Some(CExt { cred_props: None,
                     prf: if !prehashed || both { inp.clone() } else { None },
                     prf_hashed: if prehashed || both { if both { Some(CPrfI { eval: Some(client_vals(ctx, true)), by_cred: None }) } else { inp.clone() } } else { None } });
